@@ -135,6 +135,18 @@ CLAIMS = {
         "note": "Finite family (counted terminals in commutative nodes, several non-integration meshes, free/fixed indices and a Zero with free indices, variables, several integrals with ids/metadata, extra-domain maps, arguments with parts). Traversal drivers modelled (C19); finite elements / cells are abstract objects identified by repr; hashlib is modelled by itself. " + TB,
         "technique": "differential abstract interpretation of the signature pipeline over instances of the repository classes, with counters, set iteration order and string-hash salt as parameters of the abstract world",
     },
+    "C11": {
+        "level": "other",
+        "text": "Form.signature() is lifted (instances of the repository classes built by lifting their constructors) on a base form and on ~70 variants that each differ in one thing a form compiler uses: a literal (int, float, last-digit float), an operator, operand order of a non-commutative operator, an index pattern, a fixed index, element degree / family / shape, the mesh of a coefficient or geometric quantity, the coordinate element, argument number and part, a constant's shape, the integral type, subdomain id (ints, tuples, everywhere/otherwise), metadata (scalars of different Python types, nested containers, arrays of 1500 entries differing in one entry or in the 16th digit), extra-domain maps, restrictions, which of two coefficients appears where (incl. user-side subclasses of Coefficient, the documented extension point), base-form-operator data. All pairs must have different signatures; variants with the same compiled meaning (user-side coefficient classes; the form built twice from distinct equal objects) must have equal signatures; the isinstance chain of compute_terminal_hashdata must cover every concrete terminal class or raise. Known finding F11b (base-form-operator derivatives / function space not hashed) is reported as KNOWN-FINDING.",
+        "note": "sha512 is modelled by itself, so 'different signature' means different pre-hash data up to SHA-512 collisions. Finite variant family; traversal drivers modelled (C19); finite elements abstract (identified by repr). " + TB,
+        "technique": "abstract interpretation of the signature pipeline over instances of the repository classes; pairwise comparison over a one-change variant family; isinstance-chain coverage on the AST",
+    },
+    "C13": {
+        "level": "other",
+        "text": "A universe of ~115 objects of the repository classes (meshes, function/dual spaces, coefficients, cofunctions, user-side coefficient subclasses, constants, arguments, coarguments, geometric quantities, int/float/complex literals, zeros, identities, indices, multi-indices, labels, variables, operators built through their constructors, integrals, forms) is built by lifting the constructors: a base object, one variant per constructor field, and an independently rebuilt duplicate. With the classes' own lifted __eq__/equals/__hash__/__repr__: == is reflexive, symmetric, transitive (all pairs and triples); a == b implies equal hash and identical repr; objects differing in one constructor field are unequal and rebuilt duplicates equal; after all comparisons and after further constructions that hit the flyweight caches (incl. bool / float-valued integer arguments) every object's repr, recomputed hash and exact structure are unchanged; every repr string is parsed and re-evaluated with the lifted constructors and must equal the object; cls.__new__(cls, *__getnewargs__()) must rebuild an equal object for classes with a parameterised __new__.",
+        "note": "Finite universe; pickle is modelled as protocol 2 (__new__ with __getnewargs__, then state restoration modelled by __init__ with the same arguments), the pickle module itself is not analysed. " + TB,
+        "technique": "abstract interpretation of the comparison / hash / repr / construction methods over instances of the repository classes; exhaustive relation checks on the finite universe",
+    },
 }
 
 NOT_APPLICABLE = {
